@@ -162,7 +162,7 @@ func (scriptPlugin) Plan(script *logql_parser.LogQLScript) (shared.RequestProces
 	if !ok {
 		return nil, fmt.Errorf("no script %s", id)
 	}
-	return shared.RequestProcessorChain{p.(*scriptedProc)}, nil
+	return shared.RequestProcessorChain{p.(shared.RequestProcessor)}, nil
 }
 
 var (
@@ -192,7 +192,9 @@ func qrService() *service.QueryRangeService {
 	return qrSvc
 }
 
-func newScript(p *scriptedProc) (id, query string) {
+func newScript(p *scriptedProc) (id, query string) { return newScriptAny(p) }
+
+func newScriptAny(p shared.RequestProcessor) (id, query string) {
 	qrMu.Lock()
 	qrSeq++
 	id = strconv.FormatInt(qrSeq, 10)
